@@ -191,6 +191,9 @@ def main(argv):
                 agg['samples'].append({'family': o['family'], 'case': s})
         for k, v in o['excluded_known'].items():
             agg['excluded_known'][k] = agg['excluded_known'].get(k, 0) + v
+        for smp in o.get('inconclusive_samples', []):
+            if len(agg.setdefault('inconclusive_samples', [])) < 3:
+                agg['inconclusive_samples'].append({'family': o['family'], **smp})
         agg['violations'].extend(o['violations'])
         agg['unconfirmed'].extend(o['unconfirmed'])
         harness_errors.extend(f"{o['family']}: {h}" for h in o['harness_errors'])
@@ -248,6 +251,7 @@ def main(argv):
             'skipped_budget': agg['skipped_budget'],
             'excluded_known': agg['excluded_known'],
             'unconfirmed': len(agg['unconfirmed']),
+            'inconclusive_samples': agg.get('inconclusive_samples', []),
             'harness_errors': harness_errors[:5],
             'repo_head': head,
             'repo_diff': diff,
